@@ -23,3 +23,6 @@ pub struct Senders {
 #[cfg(feature = "verif")]
 #[allow(unused_imports)]
 pub(crate) use tako_events::UpstreamEventProcessor;
+#[cfg(feature = "verif")]
+#[allow(unused_imports)]
+pub(crate) use restore::StateRestorer as VerifStateRestorer;
